@@ -172,6 +172,18 @@ def from_str_rules(ctx, report, lit):
         problems = []
         n_suffix = 0
         n_plain = 0
+        # `input.strip_prefix(LIT).unwrap_or(input)`: both accepted forms in one expression
+        s0 = strip(s)
+        if s0.k == "call" and s0.a[0].name == "unwrap_or" and len(s0.a[1]) == 2:
+            sp0 = strip(s0.a[1][0])
+            dflt = strip(s0.a[1][1])
+            if sp0.k == "call" and sp0.a[0].name == "strip_prefix" and len(sp0.a[1]) == 2 and strip(sp0.a[1][0]).k == "param" and dflt.k == "param" and dflt.a[0] == strip(sp0.a[1][0]).a[0] == 1:
+                l0 = strip(sp0.a[1][1])
+                if l0.k == "const" and isinstance(l0.a[0], bytes):
+                    alts = []
+                    n_plain = n_suffix = 1
+                    if l0.a[0] != (lit or PREFIX):
+                        problems.append("strips the prefix %r, to_base64 writes %r" % (l0.a[0], lit or PREFIX))
         for a in alts:
             a = strip(a)
             if a.k == "param" and a.a[0] == 1:
